@@ -480,8 +480,18 @@ impl Ctx {
             Err(p) => {
                 self.r.count("rust_panics", 1);
                 let short = soln.len() <= 256;
+                // F2 lives entirely in "parameters the definition allows but the crate cannot
+                // represent"; a panic on supported or on invalid parameters is a different class
+                let pc = if in_envelope(n, k) {
+                    "supported-params"
+                } else if spec_params_ok(n, k) {
+                    "valid-params-outside-supported-range"
+                } else {
+                    "invalid-params"
+                };
+                self.r.count(&format!("rust_panics_{pc}"), 1);
                 self.r.violation(
-                    &format!("C19:is_valid_solution:panic:{}", panic_class(&p)),
+                    &format!("C19:is_valid_solution:panic:{pc}:{}", panic_class(&p)),
                     format!("is_valid_solution(n={n}, k={k}, input {}B, nonce {}B, soln {}B) panicked: {p}", input.len(), nonce.len(), soln.len()),
                     json!({"n": n, "k": k, "input": hexs(input), "nonce": hexs(nonce),
                            "soln_len": soln.len(), "soln": if short { hexs(soln) } else { "<long; see detail>".into() }}),
@@ -1102,11 +1112,20 @@ fn phase_grid(c: &mut Ctx, rng: &mut ChaCha20Rng, args: &Args) {
     let ns = grid_axis_n();
     let ks = grid_axis_k();
     let mut point = 0u64;
+    let mut heavy_pairs = 0u64;
     let mut complete = true;
     for &n in &ns {
         for &k in &ks {
             point += 1;
-            if point % args.nshards != args.shard {
+            // pairs whose right-length call moves megabytes are dealt round-robin, everything
+            // else by position, so that no shard gets all the expensive ones
+            let heavy = spec_params_ok(n, k) && soln_len(n, k, cap).map(|l| l > (1 << 20)).unwrap_or(false);
+            if heavy {
+                heavy_pairs += 1;
+                if heavy_pairs % args.nshards != args.shard {
+                    continue;
+                }
+            } else if point % args.nshards != args.shard {
                 continue;
             }
             if !c.r.time_left() {
@@ -1122,7 +1141,7 @@ fn phase_grid(c: &mut Ctx, rng: &mut ChaCha20Rng, args: &Args) {
                 if k < 24 && n > 0 {
                     let bits = (1u64 << k) * ((n as u64) / (k as u64 + 1) + 1);
                     for l in [bits / 8, bits.div_ceil(8)] {
-                        if l <= (1 << 22) {
+                        if l <= (1 << 16) {
                             lens.push(l as usize);
                         }
                     }
@@ -1180,8 +1199,11 @@ fn phase_grid(c: &mut Ctx, rng: &mut ChaCha20Rng, args: &Args) {
             let w = cbl(n, k) + 1;
             let inst = c.new_instance(n, k, &input, &nonce);
             let small = l <= 4096;
-            let mut kinds: Vec<(&str, u64, u64)> = vec![("zeros", 0, 0), ("seq", 0, 0)];
-            if small || w <= 32 && l <= (1 << 20) {
+            let mut kinds: Vec<(&str, u64, u64)> = vec![("zeros", 0, 0)];
+            if !heavy || in_envelope(n, k) || n > 512 {
+                kinds.push(("seq", 0, 0));
+            }
+            if !heavy {
                 kinds.push(("ones", 0, 0));
                 kinds.push(("affine", rng.r#gen::<u64>() | 1, rng.r#gen()));
             }
@@ -1189,8 +1211,12 @@ fn phase_grid(c: &mut Ctx, rng: &mut ChaCha20Rng, args: &Args) {
                 if w > 32 {
                     break;
                 }
-                let idx: Vec<u32> = (0..1u64 << k).map(|j| gen_index(kind, j, w, a, b)).collect();
-                let enc = encode_minimal(n, k, &idx);
+                let enc = if kind == "zeros" {
+                    vec![0u8; l]
+                } else {
+                    let idx: Vec<u32> = (0..1u64 << k).map(|j| gen_index(kind, j, w, a, b)).collect();
+                    encode_minimal(n, k, &idx)
+                };
                 assert_eq!(enc.len(), l);
                 let v = c.call(n, k, &input, &nonce, &enc);
                 c.r.case(&("grid-right-length", n, k, kind, v.tag()), true);
@@ -1223,6 +1249,7 @@ fn phase_grid(c: &mut Ctx, rng: &mut ChaCha20Rng, args: &Args) {
             }
         }
     }
+    c.r.set_max("max_grid_phase_ms", c.r.elapsed().as_millis() as u64);
     if !complete {
         c.r.inconclusive("grid-not-completed-within-budget");
     } else {
@@ -1240,6 +1267,16 @@ fn main() {
     let mut rng = vh_common::rng(args.shard_seed(), 19);
     let flip_cap = args.get_u64("flip-cap", args.pick(1200, 12_000)) as usize;
 
+    // the heavy boundary set (index width 25 = the largest the crate supports; 2^25 list entries):
+    // the first `heavy-shards` shards solve one such instance each
+    if args.shard < args.get_u64("heavy-shards", 0) {
+        let mut tries = 0;
+        while c.r.counter("valid_n96_k3") == 0 && tries < 3 && c.r.time_left() {
+            tries += 1;
+            let it = random_instance(&mut rng, 96, 3);
+            solved_instance::<u128>(&mut c, &mut rng, &it, flip_cap, false);
+        }
+    }
     phase_grid(&mut c, &mut rng, &args);
     phase_vectors(&mut c, &mut rng, &args, flip_cap);
     phase_random_strings(&mut c, &mut rng);
@@ -1279,16 +1316,6 @@ fn main() {
     }
     let total_w: u32 = sets.iter().map(|s| s.2).sum();
     let max_inst = args.get_u64("max-instances", args.pick(100_000, 10_000_000));
-    // the heavy boundary set (index width 25 = the largest the crate supports; 2^25 list entries):
-    // the first `heavy-shards` shards solve one such instance each
-    if args.shard < args.get_u64("heavy-shards", 0) {
-        let mut tries = 0;
-        while c.r.counter("valid_n96_k3") == 0 && tries < 3 && c.r.time_left() {
-            tries += 1;
-            let it = random_instance(&mut rng, 96, 3);
-            solved_instance::<u128>(&mut c, &mut rng, &it, flip_cap, false);
-        }
-    }
     let mut i = 0u64;
     while i < max_inst && c.r.time_left() {
         i += 1;
